@@ -9,6 +9,16 @@ CLAIMED = {
   design_ref="DESIGN.md §3 C19, §2.3",
   note="Preemption happens only at instrumented points (function entries, loop heads, package-variable accesses, lock and file-system calls); solo references come from the same instrumented build; TSan history is bounded; write modes excluded.",
   technique="deterministic simulation: seeded token scheduler over instrumented code + schedule-deterministic race detector + solo-equality oracle"),
+ "C13": dict(
+  text="Seeded search over API-call histories (orders of Compile/Run/re-Compile on one long-lived process, rand and map-order seeds varied) against the fresh-process outcome of each call, and over generated compiler sessions (definitions + commands sharing them) against a definition-store reference model with three executable readings per command (named, textually expanded, inline subroutine). Exploration: evidence, not proof.",
+  design_ref="DESIGN.md §3 C13",
+  note="References are produced by the same instrumented code in fresh processes / as sibling readings, so the model never says what a pattern matches, only that naming, sequencing and history do not change it; runs whose readings exceed the step budget are discarded.",
+  technique="deterministic simulation of call histories and compiler sessions: seeded history search + fresh-process reference + reference-model readings"),
+ "C07": dict(
+  text="Seeded search over file sizes around the 4096-byte window and over seek/read histories in the engine's own alphabet against a byte-slice model of the file, plus RunFiles-vs-Run equality for corpus programs on contents planted across 2048-multiples, on the real file system with every file system call logged. Exploration.",
+  design_ref="DESIGN.md §3 C07",
+  note="Kernel short reads are not injected (the property quantifies over contents and histories); strings.Reader defines 'the same bytes in memory'.",
+  technique="deterministic simulation: seeded seek/read histories on a simulated-world file vs byte-slice reference model; file-vs-memory differential"),
 }
 
 NA = {
